@@ -177,7 +177,17 @@ func (s *treeScript) create() {
 	for i := 0; i < n; i++ {
 		sub.action(false)
 	}
-	switch uniform(t, 0, 5, "initend") {
+	switch uniform(t, 0, 8, "initend") {
+	case 6:
+		// returned code starts with 0xEF: rejected from London on (EIP-3541), after the
+		// init code ran to its end
+		sub.a.Push(0xEF).Push(0).Op(MSTORE8).Push(uint64(pickInt(t, "eflen", 1, 2, 32))).Push(0).Op(RETURN)
+	case 7:
+		// more code than EIP-170 allows (24577 bytes): rejected from Spurious Dragon on
+		sub.a.Push(24577).Push(0).Op(RETURN)
+	case 8:
+		// code whose deposit (200 gas per byte) may exceed what is left
+		sub.a.Push(uint64(pickInt(t, "deplen", 500, 3000, 12000))).Push(0).Op(RETURN)
 	case 0, 1, 2:
 		rt := treeRuntime
 		sub.a.Push(len(rt)).PushLabel("rt").Push(0).Op(CODECOPY)
